@@ -82,44 +82,62 @@ Definition pending_count (oparg arg : option Z) : Z * bool :=
   let hc := is_some oparg || is_some arg in
   ((if hc then ev_arg (Some (or1 oparg * ev_arg arg)) else 1), hc).
 
+(* an object that is neither failed nor empty goes to the operator body *)
 Lemma operator_motion_step s k keys m o failed :
   ks_op s = Some (k, keys) ->
   let '(n, hc) := pending_count (ks_oparg s) (ks_arg s) in
   text_object m (bdoc (vbuf (ks_vst s))) n hc = TO o failed ->
+  cancelled o failed = false ->
   key_step s (KM m) =
   (let '(status, st1) := run_op k (ks_vst s) o (mkev n keys) in
    (status, mkks (if (status =? 0) && negb (vins st1) then with_buf st1 (fix_vi_cursor (vbuf st1)) else st1)
                  None None None (Some (o, failed)))).
 Proof.
-  intros Hop. unfold pending_count. intros Ht. unfold key_step, key_step_gen.
-  rewrite Hop, Ht. cbn [andb]. reflexivity.
+  intros Hop. unfold pending_count. intros Ht Hc. unfold key_step, key_step_gen.
+  rewrite Hop, Ht, Hc. cbn [andb]. reflexivity.
 Qed.
 
 (* ---------------------------------------------------------------------- *)
-(* The patched wrapper: a failed text object, or an exclusive object with
-   equal ends, cancels ANY operator *)
-Lemma patched_cancels s k keys m o failed :
+(* The wrapper (fix ced036e): a failed text object, or an exclusive object
+   with equal ends, cancels ANY operator *)
+Lemma wrapper_cancels s k keys m o failed :
   ks_op s = Some (k, keys) ->
   let '(n, hc) := pending_count (ks_oparg s) (ks_arg s) in
   text_object m (bdoc (vbuf (ks_vst s))) n hc = TO o failed ->
   cancelled o failed = true ->
-  key_step_gen true s (KM m) = (0, cleared s).
+  key_step s (KM m) = (0, cleared s).
 Proof.
-  intros Hop. unfold pending_count. intros Ht Hc. unfold key_step_gen.
+  intros Hop. unfold pending_count. intros Ht Hc. unfold key_step, key_step_gen.
   rewrite Hop, Ht, Hc. reflexivity.
 Qed.
 
 Lemma failed_is_cancelled o : cancelled o true = true.
 Proof. reflexivity. Qed.
 
-(* the patch changes nothing for an object that is neither failed nor empty *)
-Lemma patched_same s k keys m o failed :
+(* the fix changed nothing for an object that is neither failed nor empty *)
+Lemma wrapper_same_as_pinned s k keys m o failed :
   ks_op s = Some (k, keys) ->
   let '(n, hc) := pending_count (ks_oparg s) (ks_arg s) in
   text_object m (bdoc (vbuf (ks_vst s))) n hc = TO o failed ->
   cancelled o failed = false ->
-  key_step_gen true s (KM m) = key_step_gen false s (KM m).
+  key_step s (KM m) = key_step_pinned s (KM m).
 Proof.
-  intros Hop. unfold pending_count. intros Ht Hc. unfold key_step_gen.
+  intros Hop. unfold pending_count. intros Ht Hc. unfold key_step, key_step_pinned, key_step_gen.
   rewrite Hop, Ht, Hc. reflexivity.
 Qed.
+
+(* the wrapper of the commit before ced036e applied the operator to failed
+   inclusive / linewise defaults and ran the line operators on any failed
+   motion: 'ab' cursor 1 de, 'ab' dj, 'abc def' cursor 4 >Fx *)
+Definition pend (text : str) (cur : Z) (k : opk) (keys : list Z) : kst :=
+  mkks (mkvst (mkbuf text cur) None None false) None None (Some (k, keys)) None.
+
+Lemma failed_motion_pinned_not_noop :
+  (text_object (T_e false) (mkdoc [97; 98] 1) 1 false = TO (mkto 0 0 INCL) true /\
+   btext (vbuf (ks_vst (snd (key_step_pinned (pend [97; 98] 1 (OpDelete true false) [100]) (KM (T_e false)))))) = [97]) /\
+  (text_object T_j (mkdoc [97; 98] 0) 1 false = TO (mkto 0 0 LINEW) true /\
+   btext (vbuf (ks_vst (snd (key_step_pinned (pend [97; 98] 0 (OpDelete true false) [100]) (KM T_j))))) = []) /\
+  (text_object (T_F 120) (mkdoc [97; 98; 99; 32; 100; 101; 102] 4) 1 false = TO (mk1 0) true /\
+   btext (vbuf (ks_vst (snd (key_step_pinned (pend [97; 98; 99; 32; 100; 101; 102] 4 OpIndent [62]) (KM (T_F 120))))))
+   = [32; 32; 32; 32; 97; 98; 99; 32; 100; 101; 102]).
+Proof. vm_compute. repeat split. Qed.
